@@ -48,16 +48,7 @@ theorem addBond_rename (σ : String → String) (st : St) (i j : Nat) (s : BondS
     · simp [St.rename, h2, Except.map, throw, throwThe, MonadExceptOf.throw]
     · simp [St.rename, h2, Except.map, pure, Except.pure]
 
-theorem contains_map_fixed (σ : String → String) (x : String) (hx : ∀ s, σ s = x ↔ s = x) (names : List String) :
-    (names.map σ).contains x = names.contains x := by
-  rw [Bool.eq_iff_iff]
-  simp only [List.contains_iff_mem, List.mem_map]
-  constructor
-  · rintro ⟨a, ha, e⟩; rw [(hx a).1 e] at ha; exact ha
-  · intro h; exact ⟨x, h, (hx x).2 rfl⟩
-
-theorem step_rename (σ : String → String) (hσ : Function.Injective σ)
-    (hAL : ∀ s, σ s = "AtomLabel" ↔ s = "AtomLabel") (st : St) (it : RawItem) :
+theorem step_rename (σ : String → String) (hσ : Function.Injective σ) (st : St) (it : RawItem) :
     step (St.rename σ st) (renameItem σ it) = (step st it).map (St.rename σ) := by
   cases it with
   | bonded ty l b l2 ch =>
@@ -66,13 +57,6 @@ theorem step_rename (σ : String → String) (hσ : Function.Injective σ)
     | error e => simp [bind, Except.bind, Except.map]
     | ok t =>
       simp only [bind, Except.bind]
-      have hc : (St.rename σ st).names.contains "AtomLabel" = st.names.contains "AtomLabel" :=
-        contains_map_fixed σ _ hAL st.names
-      rw [hc]
-      cases hcc : st.names.contains "AtomLabel" with
-      | true => simp [Except.map, throw, throwThe, MonadExceptOf.throw]
-      | false =>
-      simp only [Bool.false_eq_true, if_false]
       have hn : (St.rename σ st).names ++ [σ l] = (st.names ++ [l]).map σ := by simp [St.rename]
       rw [hn, lookup_map σ hσ]
       cases lookup (st.names ++ [l]) l2 with
@@ -131,21 +115,19 @@ theorem step_rename (σ : String → String) (hσ : Function.Injective σ)
       repeat' split
       all_goals first | rfl | simp [Except.map, St.rename, pure, Except.pure]
 
-theorem items_rename (σ : String → String) (hσ : Function.Injective σ)
-    (hAL : ∀ s, σ s = "AtomLabel" ↔ s = "AtomLabel") (its : List RawItem) (st : St) :
+theorem items_rename (σ : String → String) (hσ : Function.Injective σ) (its : List RawItem) (st : St) :
     items (St.rename σ st) (its.map (renameItem σ)) = (items st its).map (St.rename σ) := by
   induction its generalizing st with
   | nil => simp [items, Except.map, pure, Except.pure]
   | cons it its ih =>
     simp only [List.map_cons, items, bind, Except.bind]
-    rw [step_rename σ hσ hAL]
+    rw [step_rename σ hσ]
     cases step st it with
     | error e => simp [Except.map]
     | ok st' => simp only [Except.map]; exact ih st'
 
 /-- **reading commutes with renaming the labels** (typed fragment level) -/
-theorem frag_rename (σ : String → String) (hσ : Function.Injective σ)
-    (hAL : ∀ s, σ s = "AtomLabel" ↔ s = "AtomLabel") (f : Frag) :
+theorem frag_rename (σ : String → String) (hσ : Function.Injective σ) (f : Frag) :
     frag (f.rename σ) = (frag f).map (Query.relabel σ) := by
   unfold frag
   have hitems : (f.rename σ).items = f.items.map (renameItem σ) := by
@@ -167,7 +149,7 @@ theorem frag_rename (σ : String → String) (hσ : Function.Injective σ)
         simp only
         have h0 : (⟨[σ f.label0], [⟨σ f.label0, t, chain⟩], [], []⟩ : St) =
             St.rename σ ⟨[f.label0], [⟨f.label0, t, chain⟩], [], []⟩ := by simp [St.rename]
-        rw [h0, items_rename σ hσ hAL]
+        rw [h0, items_rename σ hσ]
         cases items ⟨[f.label0], [⟨f.label0, t, chain⟩], [], []⟩ f.items with
         | error e => simp [Except.map]
         | ok st => simp [Except.map, pure, Except.pure, Query.relabel, St.rename]
@@ -198,10 +180,6 @@ theorem step_inv (st st' : St) (it : RawItem) (h : step st it = .ok st') (hi : I
     | error e => simp [h1] at h
     | ok t =>
       simp only [h1] at h
-      by_cases hcc : "AtomLabel" ∈ st.names
-      · simp only [List.contains_iff_mem, hcc, if_true, throw, throwThe, MonadExceptOf.throw] at h
-        cases h
-      simp only [List.contains_iff_mem, hcc, if_false] at h
       cases h2 : lookup (st.names ++ [l]) l2 with
       | error e => simp [h2] at h
       | ok j =>
